@@ -4,7 +4,7 @@ import vlib
 from vlib import SPEC
 MANIFEST = dict(level="model_checking", design="3 (C10)",
     technique="TLA+ spec (StoreConc.tla) of caller / shard-worker steps model-checked over every interleaving; TLC interleavings forced on the real store threads through hook gates; randomly delayed real queries validated against the spec by TLC",
-    text="TLC explores every interleaving of the caller's steps and the shard workers' command steps for families of scenarios (owned and foreign candidates, mixed compatibility / status / classes, 1..3 shards) and checks that at completion exactly the required pairs were scanned, never a track with itself, and the store is unchanged (the model of the code before the repair of F8 must violate this: non-vacuity). Each complete interleaving of the small families is then forced on the real store by gating the worker loop and the caller (hook sites w.cmd.start / owned.sent) and the ok / error streams and the store content are compared with the streams TLC computed (in half of the scenarios the first stored track has beforehand absorbed the merge history of an external track without observations that carries a candidate's id: histories are no part of a distance query). In the other direction, seeded random stores and candidate batches are queried under random delays at the schedule points and every recorded result is validated line by line by TLC against StoreConcTrace.",
+    text="TLC explores every interleaving of the caller's steps and the shard workers' command steps for families of scenarios (owned and foreign candidates, mixed compatibility / status / classes, 1..3 shards) and checks that at completion exactly the required pairs were scanned, never a track with itself, and the store is unchanged (the model of the code before the repair of F8 must violate this: non-vacuity). Each complete interleaving of the small families is then forced on the real store by gating the worker loop and the caller (hook sites w.cmd.start / owned.sent) and the ok / error streams and the store content are compared with the streams TLC computed (in half of the scenarios the first stored track has beforehand absorbed the merge history of an external track (one observation of a class no scenario queries) that carries a candidate's id: histories are no part of a distance query). In the other direction, seeded random stores and candidate batches are queried under random delays at the schedule points and every recorded result is validated line by line by TLC against StoreConcTrace.",
     note="Command granularity (one worker step = one Distances command on one shard). Harness doubles for attributes / metric. A hang (missing chunk) is detected by a watchdog and reported as a violation.")
 LEVEL = MANIFEST["level"]
 S = SPEC / "conc"
